@@ -31,6 +31,10 @@ func main() {
 		replay(os.Args[2:])
 	case "record":
 		record(os.Args[2:])
+	case "gram":
+		gram(os.Args[2:])
+	case "total":
+		total(os.Args[2:])
 	default:
 		usage()
 	}
